@@ -17,8 +17,8 @@ Example C02_lift_not_vacuous : nochange_guarded run_tables_v = true.
 Proof. reflexivity. Qed.
 
 (** fix-hasattr-call: [hasattr(x, "__call__")] -> [callable(x)]: only the builtin name [callable] is new *)
-Theorem C02_kernel_hasattr_names : forall a rest,
-  incl_str (names (hasattr_step (ECall BHasattr (a :: rest)))) (names (ECall BHasattr (a :: rest)) ++ builtin_names).
+Theorem C02_kernel_hasattr_names : forall cfg a rest,
+  incl_str (names (hasattr_step cfg (ECall BHasattr (a :: rest)))) (names (ECall BHasattr (a :: rest)) ++ builtin_names).
 Proof. exact C02_kernel_hasattr_step_names. Qed.
 Print Assumptions C02_kernel_hasattr_names.
 
